@@ -24,6 +24,7 @@ def _(c):
     c.fieldspec("args", "val")
     c.returns("seq")
     c.present_attrs += ["posonlyargs"]
+    c.callee("unite_values", lambda k: (k.param("*values", "tuple"), k.returns("val"), k.ensures("result is not None")))
     c.let("a", "node.args")
     c.let("po", "field(node.args, 'posonlyargs')")
     c.let("pk", "unS_(field(node.args, 'args'))")
